@@ -83,6 +83,16 @@ def request_paths(t, rng):
     for p in rng.sample(base, min(len(base), 10)):
         paths += [p + q for q in ("?return=/docs/../a.txt", "?dir=docs/..", "#/../top", "?a=..", "?next=../index", "?p=/..", "?x=%2e%2e/", "?a=b?c=d", "#a#b", "?", "#", "?/", "?x=/" + "a" * 200,
                                    "?" + p, "?path=" + p + ".html", "?index.html", "#index.html")]
+    # ... and however long they are (lengths around every power of two that fits into one read)
+    for p in rng.sample(base, min(len(base), 3)):
+        for k in range(5, 14):
+            for d in (-1, 0, 1):
+                L = (1 << k) + d
+                if len(p) + L < 9800:
+                    paths.append(p + "?q=" + "v" * L)
+                    if d == 0:
+                        paths.append(p + "#" + "f" * L)
+                        paths.append(p + "?" + "&".join("k%d=%d" % (j, j) for j in range(L // 8)))
     seen, out = set(), []
     for p in paths:
         if p in seen or p in BUILTIN or p.split("?")[0].split("#")[0] in BUILTIN or (p.split("?")[0].split("#")[0].rstrip("/") in BUILTIN and p != "/") or any(p.startswith(r) for r in RESERVED_PATHS) or " " in p:
